@@ -76,6 +76,78 @@ type c5Line struct {
 	Live   int     `json:"live"` // 1: computed on the LIVE channel object (not judged differently)
 }
 
+// c5Fault: ForceClose of a freshly reloaded channel whose signer fails at its
+// k-th SignOutputRaw call (a remote signer / hardware wallet hiccup).
+type c5Fault struct {
+	K      int `json:"k"`
+	Err    int `json:"err"`  // 1: ForceClose reported the error
+	NOut   int `json:"nout"` // resolutions in the summary it returned otherwise
+	NIn    int `json:"nin"`
+	Commit int `json:"commit"` // the commitment it returned is fully signed
+}
+
+type c5FaultLine struct {
+	vEv
+	NOut   int       `json:"nout"` // fault-free summary of the same state
+	NIn    int       `json:"nin"`
+	Calls  int       `json:"calls"`
+	Faults []c5Fault `json:"faults"`
+}
+
+type c5FaultSigner struct {
+	input.Signer
+	n, failAt int
+}
+
+func (f *c5FaultSigner) SignOutputRaw(tx *wire.MsgTx, sd *input.SignDescriptor) (input.Signature, error) {
+	f.n++
+	if f.n == f.failAt {
+		return nil, fmt.Errorf("verif: signer unavailable (call %d)", f.n)
+	}
+	return f.Signer.SignOutputRaw(tx, sd)
+}
+
+// closeFaults: the environment fault "the signer fails once" at every point of
+// a force close. Field copies only; what is acceptable is decided by the spec.
+func (c *c5Ctx) closeFaults(p string, live *LightningChannel, base c5Line) (c5FaultLine, bool) {
+	fl := c5FaultLine{vEv: vEv{A: "CloseFault", P: p}, NOut: base.NOut, NIn: base.NIn, Faults: []c5Fault{}}
+	if base.Err != "" || base.NOut+base.NIn == 0 {
+		return fl, false
+	}
+	// count the signer calls of an undisturbed force close
+	sh, err := c5Reload(live)
+	if err != nil {
+		return fl, false
+	}
+	cnt := &c5FaultSigner{Signer: sh.Signer}
+	sh.Signer = cnt
+	if _, err := sh.ForceClose(); err != nil {
+		return fl, false
+	}
+	fl.Calls = cnt.n
+	for k := 1; k <= cnt.n && k <= 6; k++ {
+		sh, err := c5Reload(live)
+		if err != nil {
+			return fl, false
+		}
+		sh.Signer = &c5FaultSigner{Signer: sh.Signer, failAt: k}
+		f := c5Fault{K: k}
+		sum, err := sh.ForceClose()
+		if err != nil {
+			f.Err = 1
+		} else {
+			fo := sh.fundingOutput
+			f.Commit = c5Bit(vRunEngine(fo.PkScript, fo.Value, sum.CloseTx, 0))
+			if res, rerr := sum.ContractResolutions.UnwrapOrErr(fmt.Errorf("none")); rerr == nil {
+				f.NOut = len(res.HtlcResolutions.OutgoingHTLCs)
+				f.NIn = len(res.HtlcResolutions.IncomingHTLCs)
+			}
+		}
+		fl.Faults = append(fl.Faults, f)
+	}
+	return fl, len(fl.Faults) > 0
+}
+
 const c5Height = 100 // height hint / "confirmation height" handed to the resolutions
 
 func c5Bit(err error) int {
@@ -762,8 +834,13 @@ func TestVerifC05Close(t *testing.T) {
 						}
 					}
 					if kth && sh.channelState.LocalCommitment.CommitHeight > 0 {
-						out.Emit(cc.closeLocal(n, sh))
+						base := cc.closeLocal(n, sh)
+						out.Emit(base)
 						nchecks++
+						if fl, ok := cc.closeFaults(n, sides[n].lc, base); ok {
+							out.Emit(fl)
+							nchecks++
+						}
 					}
 				}
 				// ForceClose() of the LIVE object in the one window where its memory is
